@@ -10,6 +10,8 @@ import OV.Drivers.Loop
                                            `a:0,n,2` gives explicit arguments) -> `ERR` | `<key> | <inputs> | <attrs>`
     `C17 hist <cmd>*`                      cmd = `N:<cls>:<d>:<v>` | `I:<i>:<n>` | `C:<i>:<n>` | `A:<i>:<n>` (one history from
                                            an empty cache) -> `i<k>:<d>:<v>` | `s<name>,<since>,<dom>` | `s-` | `bT`/`bF` | `E` | `X`
+    `C17 conv <declared d:v|-> <opset_version|-> <current> <ev>*`   ev = `c:<d>:<v>` | `i`
+                                           -> `ERR:twoOpsets` | `ERR:noDefault` | `ok <d:v>* | <d:v0:v>*` (exported imports | conflicts)
     `C17 sep <fill> <allowKw> <allowArgs> P <name:isInput:variadic:required:dflt|->* A <arg>* K <k=v>*`
                                            -> `ERR:<kind>` | `ok | <inputs> | <k=v>*` -/
 namespace OV.Drivers.C17
@@ -115,8 +117,33 @@ def showResp : Resp → String
   | .attributeError => "E"
   | .noSuchInstance => "X"
 
+def parseEv (s : String) : Option Ev :=
+  match s.splitOn ":" with
+  | ["c", d, v] => do pure (.call (← d.toNat?) (← v.toNat?))
+  | ["i"] => some .implicit
+  | _ => none
+
+def parseDeclared (s : String) : Option (Option (Nat × Nat)) :=
+  if s == "-" then some none else
+  match s.splitOn ":" with
+  | [d, v] => do pure (some ((← d.toNat?), (← v.toNat?)))
+  | _ => none
+
+/-- `conv <declared> <opt> <current> <ev>*` -/
+def handleConv (decl opt cur : String) (evs : List String) : String :=
+  match parseDeclared decl, (if opt == "-" then some none else opt.toNat?.map some), cur.toNat?, evs.mapM parseEv with
+  | some d, some o, some c, some es =>
+    match convert d es with
+    | .error .twoOpsets => "ERR:twoOpsets"
+    | .error .noDefault => "ERR:noDefault"
+    | .ok st =>
+      "ok " ++ " ".intercalate ((exportImports st.imports o c).map (fun p => s!"{p.1}:{p.2}")) ++ " | " ++
+        " ".intercalate (st.conflicts.map (fun p => s!"{p.1}:{p.2.1}:{p.2.2}"))
+  | _, _, _, _ => "bad-op"
+
 def handle (args : List String) : String :=
   match args with
+  | "conv" :: decl :: opt :: cur :: evs => handleConv decl opt cur evs
   | "hist" :: cmds =>
     match cmds.mapM parseCmd with
     | some cs => " ".intercalate ((OV.C17.run schemas OState.empty cs).2.map showResp)
